@@ -362,6 +362,21 @@ class Assembler:
                     edits.extend(e[0])
                     k = e[1]
                     continue
+            # ---- R11b: the one refutable use `if let Ok([v]) = e {`  ->  `if let Ok(t__k) = e { let v = t__k[0];`
+            if t.kind == IDENT and t.text == "if" and v.is_id(k + 1, "let") and v.is_id(k + 2, "Ok") and v.is_p(k + 3, "(") \
+                    and v.is_p(k + 4, "[") and v.is_p(v.match[k + 4] + 1, ")") and v.is_p(v.match[k + 4] + 2, "="):
+                ob = k + 4
+                cb = v.match[ob]
+                names = [v.text(q) for q in range(ob + 1, cb) if v.text(q) != ","]
+                j = cb + 3
+                while j < b and not v.is_p(j, "{"):
+                    if v.t[j].text in "([":
+                        j = v.match[j]
+                    j += 1
+                tmp = f"t__{self.counter}"
+                self.counter += 1
+                edits.append(Edit(ob, cb + 1, tmp, "R11", "array pattern inside Ok(..) -> temporary"))
+                edits.append(Edit(j + 1, j + 1, " ".join(f"let {n} = {tmp}[{i}];" for i, n in enumerate(names)), "R11", "array pattern element reads"))
             # ---- let chains (R12)
             if t.kind == IDENT and t.text == "if" and v.is_id(k + 1, "let"):
                 e = self.rule_r12(v, k, b)
